@@ -129,6 +129,7 @@ def scenario(ctx):
 	rng = random.Random(ch.subseed('world'))
 	world = R.build(ctx, rng, kspec, n_ref, fast_sigs=True)
 	order_idx = R.db_order(world)
+	taxa_on_disk = [dict(t) for t in world.taxa]
 	nq = ch.int(1, 4, 'nq')
 	universe = min(4 ** kspec.k, 2 ** 40)
 	queries = []
@@ -150,6 +151,10 @@ def scenario(ctx):
 	n_exec = ch.int(4, 10, 'n_exec')
 	seen_lists = {}
 	all_lists = []
+	# half of the runs keep ONE loaded database for all executions (state left behind by an earlier query must not
+	# matter), and then thresholds may be edited in memory between executions (interactive tuning; never flushed)
+	reuse_db = ch.flip(0.5, 'reuse_db')
+	shared_db = None
 	for e in range(n_exec):
 		L = f'e{e}'
 		N = ch.int(1, n_ref + 3, L + '.N') if ch.flip(0.8, L + '.customN') else 10
@@ -159,8 +164,22 @@ def scenario(ctx):
 		team = omp.get_max_threads()
 		strict = ch.flip(0.2, L + '.strict')
 		from ..harness import knob_defaults
+		if reuse_db and shared_db is not None and ch.flip(0.3, L + '.edit_threshold'):
+			from gambit.db import Taxon
+			tid = ch.int(1, len(world.taxa), L + '.edit_taxon')
+			newthr = ch.pick([None, 0.05, 0.3, 0.55, 0.9, 1.0], L + '.edit_value')
+			shared_db.session.get(Taxon, tid).distance_threshold = newthr
+			world.taxon(tid)['threshold'] = newthr
+			seen_lists.clear()         # the lists carry taxa: compare across configurations only under equal thresholds
+			ctx.probe('threshold_edited_between_queries')
+			ctx.log('edit', taxon=tid, threshold=newthr)
 		with simulated(ctx, knobs) as h, knob_defaults(ctx, ch, L):
-			db = ReferenceDatabase.load_from_dir(world.dir)
+			if reuse_db:
+				if shared_db is None:
+					shared_db = ReferenceDatabase.load_from_dir(world.dir)
+				db = shared_db
+			else:
+				db = ReferenceDatabase.load_from_dir(world.dir)
 			params = QueryParams(classify_strict=strict, chunksize=knobs.chunksize, report_closest=N)
 			results = query(db, queries, params)
 		ctx.stats['executions'] += 1
@@ -195,6 +214,12 @@ def scenario(ctx):
 			ctx.probe('chunk_smaller_than_references')
 		del db, results
 		gc.collect()
+	if shared_db is not None:
+		# the CLI arm below reads the files: the in-memory edits were never flushed, so the stored thresholds apply again
+		shared_db.session.rollback()
+		shared_db = None
+		gc.collect()
+		world.taxa = [dict(t) for t in taxa_on_disk]
 
 	# CLI arm: CSV and JSON must name the same closest genome
 	if ch.int(0, 9, 'cli_arm') == 0:
